@@ -149,6 +149,9 @@ type c02Cfg struct {
 	// ReadFaults: ordinals (1-based) of the persistent queue's item reads that fail with a storage error: the queue
 	// drops such an item (it cannot be handed over), everything else must carry on
 	ReadFaults []int `json:"storage_read_faults,omitempty"`
+	// WriteFaults: ordinals (1-based) of the persistent queue's item writes (the Offer transaction) that fail: that
+	// Offer returns the error and nothing about the queue changes
+	WriteFaults []int `json:"storage_write_faults,omitempty"`
 }
 
 var errBackend = errors.New("sim backend failure")
@@ -178,6 +181,9 @@ func c02Config(tp *simkit.Tape) c02Cfg {
 		n := tp.Range(1, 2)
 		for i := 0; i < n; i++ {
 			c.ReadFaults = append(c.ReadFaults, tp.Range(1, 6))
+		}
+		if tp.Chance(1, 2) {
+			c.WriteFaults = append(c.WriteFaults, tp.Range(1, 6))
 		}
 	}
 	return c
@@ -227,9 +233,18 @@ func runC02(r *simkit.Run) {
 	inc := disk.NewIncarnation(1)
 	host := &simHost{ext: map[component.ID]component.Component{storageID: inc}}
 	if len(cfg.ReadFaults) > 0 {
-		reads := 0
+		reads, writes := 0, 0
 		inc.FailIf = func(_ int, ops []string) bool {
 			for _, op := range ops {
+				if strings.HasPrefix(op, "set(wi,") {
+					writes++
+					for _, f := range cfg.WriteFaults {
+						if f == writes {
+							r.Count("fault.storage_write_error")
+							return true
+						}
+					}
+				}
 				var idx int
 				if n, _ := fmt.Sscanf(op, "get(%d)", &idx); n == 1 {
 					reads++
@@ -689,6 +704,9 @@ func (s *c02Sim) observe(ev string) {
 				}
 			case cfg.Wait && q.answered && q.outcome != nil && errors.Is(err, q.outcome):
 				admit(q)
+			case len(cfg.WriteFaults) > 0 && strings.Contains(err.Error(), "simdisk: injected I/O error"):
+				// the Offer's storage transaction failed: refused, nothing stored
+				r.Count("probe.refused_storage_write_error")
 			default:
 				r.Failf("offer-result", "unexpected-error", "producer p%d offering r%03d (size %d) got unexpected error %v", p.id, q.id, q.size, err)
 			}
